@@ -159,13 +159,14 @@ impl MarkdownWriter {
                     events.extend(self.inlines_to_events(vec));
                     events.push(Event::End(TagEnd::Emphasis));
                 }
-                GraphInline::Image(url, title, _) => {
+                GraphInline::Image(url, title, inlines) => {
                     events.push(Event::Start(Tag::Image {
                         title: title.into(),
                         link_type: pulldown_cmark::LinkType::Autolink,
                         dest_url: url.into(),
                         id: "".into(),
                     }));
+                    events.extend(self.inlines_to_events(inlines));
                     events.push(Event::End(TagEnd::Image));
                 }
                 GraphInline::LineBreak => {
